@@ -410,6 +410,27 @@ main(void)
                 }
             }
             free(j); free(vb.s); lyd_free_all(t); free(d);
+        } else if (!strcmp(op, "opaq") && r.ntok == 4 && ctx) {
+            /* opaq <xml-hex>: parse with LYD_PARSE_OPAQ | LYD_PARSE_ONLY (elements of unknown namespaces become opaque nodes with
+             * their attributes), print as XML formatted and shrunk, print the re-parsed output again -> ok <xml> <xml-shrink> <xml-2nd> */
+            char *d = vp_unhex(r.tok[3], NULL), *x = NULL, *xs = NULL, *x2 = NULL;
+            struct lyd_node *t = NULL, *t2 = NULL;
+
+            ly_err_clean(ctx, NULL);
+            if (lyd_parse_data_mem(ctx, d, LYD_XML, LYD_PARSE_OPAQ | LYD_PARSE_ONLY, 0, &t)) {
+                vp_reply(id, "err Parse");
+            } else {
+                x = print_mem(t, LYD_XML, LYD_PRINT_WITHSIBLINGS);
+                xs = print_mem(t, LYD_XML, LYD_PRINT_WITHSIBLINGS | LYD_PRINT_SHRINK);
+                if (xs && !lyd_parse_data_mem(ctx, xs, LYD_XML, LYD_PARSE_OPAQ | LYD_PARSE_ONLY, 0, &t2)) {
+                    x2 = print_mem(t2, LYD_XML, LYD_PRINT_WITHSIBLINGS | LYD_PRINT_SHRINK);
+                }
+                vp_begin(id, "ok");
+                vp_field_hex(x ? x : "", x ? strlen(x) : 0); vp_field_hex(xs ? xs : "", xs ? strlen(xs) : 0);
+                vp_field_hex(x2 ? x2 : "", x2 ? strlen(x2) : 0);
+                vp_end();
+            }
+            free(x); free(xs); free(x2); lyd_free_all(t); lyd_free_all(t2); free(d);
         } else if (!strcmp(op, "leakcheck")) {
             vp_reply(id, "ok %d", VP_LEAKCHECK() ? 1 : 0);
         } else if (!strcmp(op, "cross") && r.ntok == 5 && ctx) {
